@@ -126,7 +126,9 @@ def gen_prog(rng, *, dyadic=True, nmax=8, depth=3, limit_p=0.4, group_p=0.3, gro
         else:
             limit = rng.choice([0.35, 1.0, 2.05, 3.3, 7.7])
     return {"tock": tock, "tyme": start, "limit": limit, "runner": runner, "doers": doers, "pool": [],
-            "dyadic": dyadic, "do_args": rng.random() < 0.3}
+            "dyadic": dyadic, "do_args": rng.random() < 0.3,
+            "ctor_tyme": rng.choice([0.0, 3.0, 7.25, 100.0]),          # only used with do_args: stale constructor values
+            "ctor_limit": rng.choice([None, None, 0.5, 64.0]) if limit is not None else None}
 
 
 def shape_sig(nodes):
